@@ -99,10 +99,13 @@ def run(ctx):
     while generated < nprob and attempts < nprob * 6:
         attempts += 1
         ai_friendly = rng.random() < 0.45
+        temporal = not ai_friendly and rng.random() < 0.3
         g = IoGenProblem(rng, ai_friendly=ai_friendly, plain_names=(ai_friendly and rng.random() < 0.5),
-                         bool_assign=rng.random() < 0.5)
-        if not g.bad and not ai_friendly and rng.random() < 0.3:
+                         bool_assign=rng.random() < 0.5, metrics=not temporal)
+        if not g.bad and temporal:
             add_temporal(g, rng, "pddl")
+            if rng.random() < 0.5:
+                g.add_io_metric()
             stats["temporal_problems"] += 1
         if g.bad:
             stats["generator_artefact"] += 1
